@@ -528,7 +528,7 @@ def run_shard(spec, shard):
             doc = [core] + pad if k == 0 else pad + [core] if k == 1 else pad[: len(pad) // 2] + [core] + pad[len(pad) // 2:]
         ast, text = gen_query(r, shard, doc, nseg_max=r.choice([1, 1, 2, 3]))
         case = {"kind": "sampled", "q": text, "ast": ast, "doc": doc, "seeds": [r.randrange(10**9) for _ in range(6)]}
-        if r.random() < 0.25 and "descendant" in Q.features(ast):
+        if r.random() < 0.6 and "descendant" in Q.features(ast):
             depth = V.depth(doc) if hasattr(V, "depth") else 6
             case["limit"] = r.randint(1, max(1, depth) + 1)
         shared = r.random() < 0.2
